@@ -142,6 +142,9 @@ func zzDo(c *Client, ctx context.Context, url string, dest, req any) error {
 	call := zzCalls
 	zzCalls++
 	zzMu.Unlock()
+	if ZZOnCall != nil {
+		ZZOnCall(c)
+	}
 	if zzMode == 0 && !zzNoErrors {
 		if zzvrf.Bool("transport-error") {
 			return errors.New("transport")
@@ -398,3 +401,11 @@ func zzURLString(u *URL) string   { return "http://node" }
 func zzURLHostname(u *URL) string { return "node" }
 
 func zzMustURL(provided string) *URL { return &URL{provided: provided} }
+
+// ZZOnCall observes every node call (which client issued it).
+var ZZOnCall func(c *Client)
+
+// the background head pollers do I/O only; their effect on the head cache is
+// modelled by explicit announcements where a harness needs them
+func zzNoPoll(c *Client, ctx context.Context, url string) {}
+func zzNoListen(c *Client, ctx context.Context)           {}
